@@ -142,14 +142,37 @@ func (e *Engine) block(what string, on ...interface{}) {
 		e.reportDeadlock()
 		return
 	}
-	c := 0
-	if len(rs) > 1 {
-		c = e.schedDecide(len(rs))
-	}
-	e.cur = rs[c]
-	rs[c].wake <- struct{}{}
+	next := e.pickNext(rs, cur.id)
+	e.cur = next
+	next.wake <- struct{}{}
 	<-cur.wake
 	e.afterWake()
+}
+
+// pickNext chooses who runs when the current goroutine cannot continue (blocked or finished).
+// Delay-bounded scheduling: the default is the next runnable goroutine in round-robin order after
+// 'after'; choosing any other one costs one unit of the same budget that preemptions use.
+func (e *Engine) pickNext(rs []*gor, after int) *gor {
+	// round-robin order starting after the given id
+	ordered := make([]*gor, 0, len(rs))
+	for _, g := range rs {
+		if g.id > after {
+			ordered = append(ordered, g)
+		}
+	}
+	for _, g := range rs {
+		if g.id <= after {
+			ordered = append(ordered, g)
+		}
+	}
+	if len(ordered) == 1 || e.preempts >= e.bud.Preempt {
+		return ordered[0]
+	}
+	c := e.schedDecide(len(ordered))
+	if c > 0 {
+		e.preempts++
+	}
+	return ordered[c]
 }
 
 func (e *Engine) deadlockDesc() string {
@@ -247,24 +270,22 @@ func (e *Engine) spawn(fnv value, args []value) {
 				}
 				return
 			}
-			c := 0
-			if len(rs) > 1 {
-				func() {
-					defer func() {
-						if r := recover(); r != nil {
-							e.pendingAbort = r
-							c = -1
-						}
-					}()
-					c = e.schedDecide(len(rs))
+			var next *gor
+			func() {
+				defer func() {
+					if r := recover(); r != nil {
+						e.pendingAbort = r
+						next = nil
+					}
 				}()
-			}
-			if c < 0 {
+				next = e.pickNext(rs, g.id)
+			}()
+			if next == nil {
 				e.toMain()
 				return
 			}
-			e.cur = rs[c]
-			rs[c].wake <- struct{}{}
+			e.cur = next
+			next.wake <- struct{}{}
 		}()
 		e.call(fnv, args, nil)
 	}()
@@ -302,11 +323,7 @@ func (e *Engine) waitIdle() int {
 		if len(others) == 0 {
 			break
 		}
-		c := 0
-		if len(others) > 1 {
-			c = e.schedDecide(len(others))
-		}
-		e.switchTo(others[c])
+		e.switchTo(e.pickNext(others, e.cur.id))
 	}
 	n := 0
 	for _, g := range e.gors {
